@@ -7,7 +7,7 @@ REQUIRED_THEOREMS = ["Gv.Props.C10." + n for n in [
     "goGen_intn_lt", "runSeed_is_runTape", "shuffle_is_row_permutation", "perm_is_permutation", "sample_distinct_rows",
     "columns_distinct", "bootstrap_columns_original", "bootstrap_every_site_reachable", "window_is_contiguous",
     "window_every_offset_reachable", "mutate_frame", "permProg_wf", "shuffleSequences_wf", "bootstrap_wf",
-    "sampleRows_wf", "randSubAlign_wf", "bootstrap_every_seed", "shuffle_every_seed"]]
+    "sampleRows_wf", "randSubAlign_wf", "bootstrap_every_seed", "shuffle_every_seed", "rarefy_keeps_counted_rows_in_order"]]
 LEVEL_TEXT = ("Lean theorems over programs-with-random-draws (RProg): each modelled randomised operation keeps its promise for "
               "EVERY admissible answer tape (hence every seed: runGen_is_runTape), and support theorems exhibit a tape for every "
               "admissible outcome (each site bootstrapped, each window offset incl. the last, each row sampled); tied to /repo by "
@@ -20,9 +20,9 @@ RULE = ("alignments of 1..6 rows x 1..12 columns (nucleotide / protein, gaps and
         "rates / proportions / lengths in and at the borders of their domains (0, 1, 1/2, out-of-range), seeds drawn from "
         "VERIF_SEED; non-trivial = at least 2 rows and 2 columns and a parameter strictly inside its domain")
 PARTIAL = ["proved in Lean for all tapes: ShuffleSequences, rand.Perm, Sample, RandSubAlign (both modes), BuildBootstrap (invariant + "
-           "support), Mutate (frame); NOT yet theorems (checked only by the decidable promise evaluated on the implementation's "
+           "support), Mutate (frame), Rarefy (sub-list of counted rows); NOT yet theorems (checked only by the decidable promise evaluated on the implementation's "
            "output and by exact replay): AddGaps, Swap, Recombine, SimulateRogue",
-           "ShuffleSites and Rarefy are not modelled yet",
+           "ShuffleSites is not modelled yet",
            "support ('positive probability') is proved in the ideal-source reading: an admissible tape exists for every admissible "
            "outcome; the statistical run (`rnd support`: 3000 independent runs per case, a missing outcome has probability < 1e-30 on an "
            "ideal source) covers bootstrap sites, sampled rows, window offsets, sampled columns and row permutations only"]
@@ -66,6 +66,18 @@ def gen(rng, tier):
         yield Case("rnd", ["rogue"] + base + [rng.choice(FR + ["2"]), rng.choice(FR + ["2"])], big, "rogue")
         if rng.random() < 0.2:
             yield Case("rnd", ["twice"] + base, big, "twice")
+        # Rarefy: counts for a random subset of the rows (sometimes an unknown name, a zero count, nb too large)
+        names = [r[0] for r in rows]
+        sub = rng.sample(names, rng.randint(1, n))
+        cnt = {x: rng.choice([1, 1, 2, 3, 5]) for x in sub}
+        r = rng.random()
+        if r < 0.05:
+            cnt["nope"] = 2
+        elif r < 0.1:
+            cnt[sub[0]] = 0
+        tot = sum(cnt.values())
+        nb = rng.choice([0, 1, max(1, tot // 2), max(0, tot - 1), tot, tot + 1])
+        yield Case("rnd", ["rarefy"] + base + [nb, ";".join("%s=%d" % kv for kv in cnt.items())], n >= 2 and 0 < nb < tot, "rarefy")
     # distributional support: canonical alignments with distinct rows and columns, K independent runs per case
     M = 12 if tier == "quick" else 120
     for _ in range(M):
